@@ -49,15 +49,35 @@ class Track:
         self.seg = {}        # slot -> kind ('S' from decoder, 'H' from a hyp iterator), valid
         self.hyp = {}
         self.ali = {}        # slot -> (source: -1 decoder-owned | k retained slot, valid)
-        self.lat = set()
         self.aln = set()
         self.everutt = False
+        self.dagobj = None   # identity of the decoder's current lattice object (None = none)
+        self.dagfresh = False
+        self.lat = {}        # slot -> lattice object identity (user references)
+        self.ln = {}         # node iterators: slot -> [object identity, valid]
+        self.ll = {}         # link iterators
+        self.wildcfg = False
         self.pos = 0         # position in the recording for streaming blocks
         self.speech = 0      # samples of the recording given in the current / last utterance
         self.cfg = {"jsgf": "none", "fsg": "none"}   # grammar keys of the decoder's configuration: none|good|bad
 
     def eff_gram(self):
         return self.cfg["jsgf"] if self.cfg["jsgf"] != "none" else self.cfg["fsg"]
+
+    def kill_obj(self, obj):
+        """node / link iterators into a lattice object that was released or pruned"""
+        for d in (self.ln, self.ll):
+            for k in d:
+                if d[k][0] == obj:
+                    d[k][1] = False
+
+    def lattice_call(self, counter):
+        """decoder_lattice: reuse when it covers the current frames, else the old object is released"""
+        if not (self.dagobj is not None and self.dagfresh):
+            self.invalidate("dag")
+            counter[0] += 1
+            self.dagobj, self.dagfresh = counter[0], True
+        return self.dagobj
 
     def invalidate(self, what):
         """what: 'result' (search history gone), 'dag' (lattice gone), 'align' (decoder-owned aligner gone)"""
@@ -66,28 +86,139 @@ class Track:
                 self.seg[k] = (self.seg[k][0], False)
             what = "dag"
         if what == "dag":
+            # the search dropped its lattice: the object lives on only through user references
             for k in self.hyp:
                 self.hyp[k] = False
             for k in self.seg:
                 if self.seg[k][0] == "H":
                     self.seg[k] = ("H", False)
+            old, self.dagobj, self.dagfresh = self.dagobj, None, False
+            if old is not None and old not in self.lat.values():
+                self.kill_obj(old)
         if what == "align":
             for k in self.ali:
                 if self.ali[k][0] == -1:
                     self.ali[k] = (-1, False)
 
 
+_CFG_TABLE = None
+# the widened API surface (lattice functions, typed configuration calls, held sub-objects, two decoders, MLLR, log file)
+# is generated only when the model driver understands it
+EXTENDED = os.environ.get("C09_EXTENDED", "0") == "1"
+
+
+def config_table():
+    """(name, type) of the configuration parameters, read from the current config_defs.h"""
+    global _CFG_TABLE
+    if _CFG_TABLE is None:
+        txt = (vlib.REPO / "include" / "soundswallower" / "config_defs.h").read_text()
+        ents = re.findall(r'\{\s*"([a-z_0-9]+)",\s*\\?\s*((?:REQ)?ARG_[A-Z]+),', txt)
+        tmap = {"INTEGER": "int", "FLOATING": "float", "STRING": "str", "BOOLEAN": "bool"}
+        _CFG_TABLE = {n: tmap[t.split("_")[-1]] for n, t in ents}
+    return _CFG_TABLE
+
+
+# parameters whose value may be changed on a live decoder (read at reinit / grammar load / lattice build only through
+# code that accepts every value generated here)
+SAFE_F = {"beam": ["1e-48", "1e-20", "1e-10", "1.0"], "wbeam": ["7e-29", "1e-8"], "pbeam": ["1e-48", "1e-10"],
+          "lw": ["6.5", "1", "0.5", "12"], "wip": ["0.65", "1.0", "1e-5"], "pip": ["1.0", "0.5"],
+          "silprob": ["0.005", "0.5", "1.0"], "fillprob": ["1e-8", "0.5"], "ascale": ["20.0", "1", "7.5"]}
+SAFE_B = ["compallsen", "backtrace", "fsgusefiller", "fsgusealtpron", "bestpath"]
+SAFE_I = {"maxhmmpf": ["-1", "50", "30000"]}
+SAFE_S = {"cmninit": ["40,3,-1", "41", "NULL"]}
+STR_VALUES = ["NULL", "EMPTY", "7", "-3", "2.5", "1e-5", "yes", "no", "true", "junk"]
+
+
+def str_accepts(ktype, v):
+    """does config_set_str accept the value for a parameter of this type (anytype_from_str)?  Generator side only:
+    the model has its own copy (`cfgStrOk`)."""
+    if v == "NULL":
+        return True
+    if v == "EMPTY":
+        return False
+    if ktype in ("str", "float"):
+        return True
+    if ktype == "int":
+        return v in ("7", "-3", "2.5", "1e-5")
+    return v in ("1e-5", "yes", "no", "true")      # bool: first character decides
+
+
+def typed_config_call(rng, safe_only):
+    """one config_* call (without the leading 'cfg' / 'cfgk <slot>')"""
+    tab = config_table()
+    if not safe_only:
+        key = rng.choice(sorted(tab) + ["nosuchkey"])
+        r = rng.below(6)
+        if r == 0:
+            return f"str {key} {rng.choice(STR_VALUES)}"
+        if r == 1:
+            return f"int {key} {rng.choice(['0', '-1', '7', '2000000000'])}"
+        if r == 2:
+            return f"float {key} {rng.choice(['0', '1e-30', '2.5', '-1e10'])}"
+        if r == 3:
+            return f"bool {key} {rng.below(2)}"
+        if r == 4:
+            return rng.choice(["unset", "setnull", "same", "get", "typeof"]) + " " + key
+        return "parse " + rng.choice(["ok", "unknown", "empty", "trunc"])
+    r = rng.below(10)
+    if r == 0:
+        k = rng.choice(sorted(SAFE_F))
+        return f"float {k} {rng.choice(SAFE_F[k])}"
+    if r == 1:
+        k = rng.choice(sorted(SAFE_F))
+        return f"str {k} {rng.choice(SAFE_F[k])}"
+    if r == 2:
+        return f"{rng.choice(['bool', 'int', 'float'])} {rng.choice(SAFE_B)} {rng.below(2)}"
+    if r == 3:
+        return f"str {rng.choice(SAFE_B)} {rng.choice(['yes', 'no', 'true', 'junk', '7', 'EMPTY'])}"
+    if r == 4:
+        k = rng.choice(sorted(SAFE_I))
+        return f"{rng.choice(['int', 'str'])} {k} {rng.choice(SAFE_I[k])}"
+    if r == 5:
+        k = rng.choice(sorted(SAFE_S))
+        return f"str {k} {rng.choice(SAFE_S[k])}"
+    key = rng.choice(sorted(tab) + ["nosuchkey", "nosuchkey"])
+    if r == 6:
+        return rng.choice(["get", "typeof", "same", "same"]) + " " + key
+    if r == 7:
+        return "json x"
+    if r == 8:
+        # a value the parser of this parameter's type refuses: the configuration must stay as it is
+        ktype = tab.get(key)
+        bad = [v for v in STR_VALUES if ktype is None or not str_accepts(ktype, v)]
+        return f"str {key} {rng.choice(bad)}" if bad else f"get {key}"
+    k = rng.choice(sorted(SAFE_F) + SAFE_B + sorted(SAFE_I))
+    return rng.choice(["unset", "setnull"]) + " " + k
+
+
 def gen_history(rng, stats, maxcalls=40, profile=None):
     """one history: list of call lines.  Never emits an out-of-protocol call (see module docstring of the
     Lean model for the classification)."""
-    t = Track()
+    tracks = [Track(), Track()]
+
+    class Cur:
+        """the track of the decoder instance the next call is made on"""
+        i = 0
+
+        def __getattr__(self, name):
+            return getattr(tracks[Cur.i], name)
+
+        def __setattr__(self, name, val):
+            setattr(tracks[Cur.i], name, val)
+    t = Cur()
+    sh = {"cfg": {}, "lmath": set(), "fe": set(), "feat": set(), "ml": {}, "wild": set()}   # held sub-objects (shared tables)
+    objctr = [0]
     ops = []
-    profile = profile or rng.weighted([("mixed", 46), ("queries", 18), ("lifecycle", 14), ("outoforder", 14), ("longaudio", 8)])
+    if EXTENDED:
+        profile = profile or rng.weighted([("mixed", 30), ("queries", 14), ("lifecycle", 10), ("outoforder", 10), ("longaudio", 8),
+                                           ("lattice", 10), ("config", 6), ("subobj", 5), ("twodec", 7)])
+    else:
+        profile = profile or rng.weighted([("mixed", 46), ("queries", 18), ("lifecycle", 14), ("outoforder", 14), ("longaudio", 8)])
     stats["profiles"][profile] = stats["profiles"].get(profile, 0) + 1
     smalldict = rng.chance(0.7)
 
     def emit(s, kind):
-        ops.append(s)
+        ops.append(("@1 " if Cur.i == 1 else "") + s)
         stats["calls"][kind] = stats["calls"].get(kind, 0) + 1
 
     def init_args(g):
@@ -181,10 +312,11 @@ def gen_history(rng, stats, maxcalls=40, profile=None):
                         q = rng.choice(["hyp", "nframes", "json 0", "lattice", "getcmn 1"])
                         emit(q, q.split()[0])
                         if q == "lattice":
-                            t.invalidate("dag")
+                            t.lattice_call(objctr)
                 t.speech = total
             stats["blocks"]["long-" + mode] = stats["blocks"].get("long-" + mode, 0) + 1
-            t.invalidate("dag"); t.invalidate("align")
+            t.dagfresh = False
+            t.invalidate("align")
             if rng.chance(0.9):
                 emit("end", "end")
                 t.utt = "e"
@@ -192,7 +324,7 @@ def gen_history(rng, stats, maxcalls=40, profile=None):
                     if rng.chance(0.3):
                         emit(q, q.split()[0] + (q.split()[1] if q.startswith("json") else ""))
                         if q == "lattice":
-                            t.invalidate("dag")
+                            t.lattice_call(objctr)
                         if q in ("json 1", "align"):
                             t.invalidate("align")
             else:
@@ -209,34 +341,17 @@ def gen_history(rng, stats, maxcalls=40, profile=None):
         do_init()
         n = rng.range(6, maxcalls)
     while len(ops) < n:
-        if not t.alive:
-            # decoder gone (or never created): only releases, the null-argument calls, or a new decoder
-            c = rng.weighted([("init", 30), ("freenull", 5), ("iterfree", 30), ("stop", 10)])
-            if c == "init":
-                do_init()
-            elif c == "freenull":
-                emit("freenull", "freenull")
-            elif c == "iterfree":
-                pool = [("segfree", k) for k in t.seg] + [("hypfree", k) for k in t.hyp] + \
-                       [("alifree", k) for k in t.ali] + [("latfree", k) for k in t.lat] + [("alfree", k) for k in t.aln]
-                if pool:
-                    o, k = rng.choice(pool)
-                    emit(f"{o} {k}", o)
-                    {"segfree": t.seg, "hypfree": t.hyp, "alifree": t.ali}.get(o, {}).pop(k, None)
-                    if o == "latfree":
-                        t.lat.discard(k)
-                    if o == "alfree":
-                        t.aln.discard(k)
-                        for j in list(t.ali):
-                            if t.ali[j][0] == k:
-                                t.ali[j] = (k, False)
-            else:
-                break
-            continue
-        inutt = t.utt == "s"
+        if profile == "twodec" and rng.chance(0.35):
+            Cur.i = 1 - Cur.i          # the next calls go to the other decoder instance
+        alive = t.alive
+        inutt = alive and t.utt == "s"
         w = []
-        # utterance control
-        if not inutt:
+        usable_cfg = [k for k, o in sh["cfg"].items() if not o.get("wild")]
+        if not alive:
+            # decoder gone (or never created): a new decoder, the null-argument calls, and everything that works on
+            # objects the history still holds
+            w += [("init", 30), ("freenull", 3), ("stop", 6 if profile != "twodec" else 2), ("initcfg", 25 if usable_cfg else 0)]
+        elif not inutt:
             w += [("start", 14 if t.search else 3)]
             w += [("end-ooo", 3), ("proc-ooo", 5)]
             w += [("gram", 7), ("aligntext", 4), ("fsg", 3), ("addword1", 2), ("reinit", 3), ("cfg-gram", 2)]
@@ -246,9 +361,22 @@ def gen_history(rng, stats, maxcalls=40, profile=None):
                 if t.blocks == 0:
                     w += [("proc-full", 5)]
             w += [("end", 10), ("start-ooo", 3)]
-        w += [("hyp", 6), ("prob", 2), ("nframes", 2), ("seg", 6), ("nbest", 5), ("lattice", 4), ("latbest", 2),
-              ("latretain", 2), ("align", 5), ("alretain", 2), ("aliter", 4), ("json", 6), ("getcmn", 2), ("setcmn", 2),
-              ("lookup", 2), ("addword0", 3), ("cfg", 3), ("times", 1), ("retain", 2), ("free", 4), ("freenull", 1)]
+        if alive:
+            w += [("hyp", 6), ("prob", 2), ("nframes", 2), ("seg", 6), ("nbest", 5), ("lattice", 4), ("latbest", 2),
+                  ("latretain", 2), ("align", 5), ("alretain", 2), ("aliter", 4), ("json", 6), ("getcmn", 2), ("setcmn", 2),
+                  ("lookup", 2), ("addword0", 3), ("cfg", 2), ("cfgtyped", 2), ("times", 1), ("retain", 2), ("free", 4),
+                  ("freenull", 1), ("logfile", 1), ("subretain", 2)]
+            if not inutt:
+                w += [("reinitfeat", 1), ("mllrapply", 1), ("reinitcfg", 3 if usable_cfg else 0)]
+        has_lat = alive or bool(t.lat)
+        w += [("latbestk", 2 if has_lat else 0), ("latprune", 1 if has_lat else 0), ("lattrav", 2 if has_lat else 0),
+              ("lnode", 2 if has_lat else 0),
+              ("lnodenext", 5 * len(t.ln)), ("lnodefree", 2 * len(t.ln)), ("llink", 4 * len(t.ln)),
+              ("llinknext", 5 * len(t.ll)), ("llinkfree", 2 * len(t.ll))]
+        nheld = len(sh["cfg"]) + len(sh["lmath"]) + len(sh["fe"]) + len(sh["feat"])
+        w += [("cfgnew", 1), ("subuse", 2 * nheld), ("subfree", 2 * nheld), ("cfgk", 2 * len(sh["cfg"])),
+              ("cfgwild", 1 * len(sh["cfg"])), ("cfgretain", len(sh["cfg"])),
+              ("mllrread", 1), ("mllrfree", 2 * len(sh["ml"]))]
         w += [("segnext", 6 * len(t.seg)), ("segfree", 2 * len(t.seg)), ("hypnext", 6 * len(t.hyp)),
               ("hypfree", 2 * len(t.hyp)), ("hypseg", 4 * len(t.hyp)), ("alinext", 6 * len(t.ali)),
               ("alichild", 4 * len(t.ali)), ("alifree", 2 * len(t.ali)), ("aligoto", 2 * len(t.ali)),
@@ -260,22 +388,50 @@ def gen_history(rng, stats, maxcalls=40, profile=None):
             w = [(a, b * (5 if a in ("free", "retain", "reinit", "gram", "fsg", "aligntext", "start", "end") else 1)) for a, b in w]
         elif profile == "outoforder":
             w = [(a, b * (6 if a.endswith("-ooo") else 1)) for a, b in w]
+        elif profile == "lattice":
+            w = [(a, b * (6 if a in ("lattice", "latbest", "latretain", "nbest", "latbestk", "latprune", "lattrav", "lnode",
+                                     "lnodenext", "llink", "llinknext", "latwalk", "hypnext", "hypseg") else 1)) for a, b in w]
+        elif profile == "config":
+            w = [(a, b * (8 if a in ("cfg", "cfgtyped", "cfg-gram", "reinit", "cfgnew", "cfgk", "cfgwild", "subretain",
+                                     "reinitcfg", "cfgretain", "initcfg") else 1)) for a, b in w]
+        elif profile in ("subobj", "twodec"):
+            w = [(a, b * (6 if a in ("subretain", "subuse", "subfree", "cfgnew", "cfgretain", "initcfg", "reinitcfg", "logfile",
+                                     "mllrread", "mllrapply", "mllrfree", "reinitfeat", "free") else 1)) for a, b in w]
         # aim: results exist (about a second of speech was given) -> explore them; no result can exist -> keep only a
         # few queries (they must return the documented empty value)
-        likely = t.search and t.speech >= 10000
-        QUERY = ("hyp", "seg", "nbest", "lattice", "latbest", "latretain", "align", "alretain", "aliter", "json")
-        ITER = ("segnext", "hypnext", "hypseg", "alinext", "alichild", "aligoto", "latwalk")
+        likely = alive and t.search and t.speech >= 10000
+        QUERY = ("hyp", "seg", "nbest", "lattice", "latbest", "latretain", "align", "alretain", "aliter", "json", "latbestk",
+                 "lattrav", "lnode", "latprune")
+        ITER = ("segnext", "hypnext", "hypseg", "alinext", "alichild", "aligoto", "latwalk", "lnodenext", "llink", "llinknext")
         if likely:
             w = [(a, b * (4 if a in QUERY or a in ITER else 1)) for a, b in w]
-            w = [(a, max(1, b // 3) if a in ("free", "reinit", "gram", "fsg", "aligntext", "addword1", "start") else b) for a, b in w]
+            w = [(a, (max(1, b // 3) if b else 0) if a in ("free", "reinit", "gram", "fsg", "aligntext", "addword1", "start") else b) for a, b in w]
         elif profile != "queries":
-            w = [(a, max(1, b // 3) if a in QUERY else b) for a, b in w]
+            w = [(a, (max(1, b // 3) if b else 0) if a in QUERY else b) for a, b in w]
         if inutt and t.speech < 10000 and not t.full:
             w = [(a, b * 3 if a == "proc" else b) for a, b in w]
+        if not EXTENDED:
+            NEW = ("cfgtyped", "logfile", "subretain", "reinitfeat", "mllrapply", "reinitcfg", "latbestk", "latprune", "lattrav",
+                   "lnode", "lnodenext", "lnodefree", "llink", "llinknext", "llinkfree", "cfgnew", "subuse", "subfree", "cfgk",
+                   "cfgwild", "cfgretain", "mllrread", "mllrfree", "initcfg")
+            w = [(a, 0 if a in NEW else b) for a, b in w]
         w = [(a, b) for a, b in w if b > 0]
         c = rng.weighted(w)
 
-        if c == "start":
+        if c == "stop":
+            break
+        elif c == "init":
+            do_init()
+        elif c == "initcfg":
+            k = rng.choice(usable_cfg)
+            obj = sh["cfg"].pop(k)
+            emit(f"initcfg {k}", "initcfg")
+            g = obj["jsgf"] if obj["jsgf"] != "none" else obj["fsg"]
+            if g != "bad":
+                t.alive, t.refs, t.utt, t.search = True, 1, "i", g == "good"
+                t.cfg = obj
+                t.blocks, t.full = 0, False
+        elif c == "start":
             emit("start", "start" if t.search else "start-nosearch")
             if t.search:
                 t.utt, t.blocks, t.full, t.everutt = "s", 0, False, True
@@ -286,7 +442,8 @@ def gen_history(rng, stats, maxcalls=40, profile=None):
         elif c == "end":
             emit("end", "end")
             t.utt = "e"
-            t.invalidate("dag"); t.invalidate("align")
+            t.dagfresh = False
+            t.invalidate("align")
         elif c == "end-ooo":
             emit("end", "end-without-start")
         elif c in ("proc", "proc-full", "proc-ooo"):
@@ -300,7 +457,8 @@ def gen_history(rng, stats, maxcalls=40, profile=None):
             if c != "proc-ooo":
                 t.blocks += 1
                 t.full = t.full or fu == 1
-                t.invalidate("dag"); t.invalidate("align")
+                t.dagfresh = False
+                t.invalidate("align")
         elif c == "gram":
             k = rng.choice(GRAM_BAD) if rng.chance(0.3) else rng.choice(GRAM_OK)
             if rng.chance(0.1):
@@ -370,18 +528,17 @@ def gen_history(rng, stats, maxcalls=40, profile=None):
             k = free_slot(t.hyp)
             if k is not None:
                 emit(f"nbest {k}", "nbest")
+                t.lattice_call(objctr)
                 t.hyp[k] = True
-                t.invalidate("dag"); t.hyp[k] = True
         elif c in ("lattice", "latbest"):
             emit(c, c)
-            t.invalidate("dag")
+            t.lattice_call(objctr)
         elif c == "latretain":
             fr = [k for k in range(NSLOT) if k not in t.lat]
             if fr:
                 k = rng.choice(fr)
                 emit(f"latretain {k}", "latretain")
-                t.lat.add(k)
-                t.invalidate("dag")
+                t.lat[k] = t.lattice_call(objctr)
         elif c in ("align",):
             emit("align", "align")
             t.invalidate("align")
@@ -462,7 +619,143 @@ def gen_history(rng, stats, maxcalls=40, profile=None):
             k = rng.choice(sorted(t.lat))
             emit(f"{c} {k}", c)
             if c == "latfree":
-                t.lat.discard(k)
+                obj = t.lat.pop(k)
+                if obj != t.dagobj and obj not in t.lat.values():
+                    t.kill_obj(obj)
+        elif c in ("latbestk", "latprune", "lattrav", "lnode"):
+            # lattice functions on the decoder's lattice (-1) or on a retained one
+            src = rng.choice([-1] + sorted(t.lat) * 2) if t.alive else rng.choice(sorted(t.lat))
+            obj = t.lattice_call(objctr) if src == -1 else t.lat[src]
+            if c == "latbestk":
+                emit(f"latbest {src}", "latbest-retained" if src >= 0 else "latbest")
+            elif c == "lattrav":
+                emit(f"lattrav {src} {rng.choice(['fwd', 'rev'])} {rng.choice([0, 1, 2, 5, 1000, 1000])}", "lattrav")
+            elif c == "latprune":
+                emit(f"latprune {src} {rng.choice(['all', 'none', 'half', 'small', 'small'])}", "latprune")
+                # nodes and links are deleted: every iterator into this object dies
+                t.kill_obj(obj)
+                if obj == t.dagobj:
+                    for k in t.hyp:
+                        t.hyp[k] = False
+                    for k in t.seg:
+                        if t.seg[k][0] == "H":
+                            t.seg[k] = ("H", False)
+            else:
+                j = free_slot(t.ln)
+                if j is not None:
+                    emit(f"lnode {j} {src}", "lnode")
+                    t.ln[j] = [obj, True]
+        elif c in ("lnodenext", "lnodefree", "llink"):
+            k = rng.choice(sorted(t.ln))
+            if c == "lnodefree" or not t.ln[k][1]:
+                emit(f"lnodefree {k}", "lnodefree-stale" if not t.ln[k][1] else "lnodefree")
+                del t.ln[k]
+            elif c == "lnodenext":
+                for _ in range(rng.choice([1, 1, 2, 3, 10])):
+                    emit(f"lnodenext {k}", "lnodenext")
+            else:
+                j = free_slot(t.ll)
+                if j is not None:
+                    emit(f"llink {j} {k} {rng.choice(['exits', 'entries'])}", "llink")
+                    t.ll[j] = [t.ln[k][0], True]
+        elif c in ("llinknext", "llinkfree"):
+            k = rng.choice(sorted(t.ll))
+            if c == "llinkfree" or not t.ll[k][1]:
+                emit(f"llinkfree {k}", "llinkfree-stale" if not t.ll[k][1] else "llinkfree")
+                del t.ll[k]
+            else:
+                for _ in range(rng.choice([1, 1, 2, 4])):
+                    emit(f"llinknext {k}", "llinknext")
+        elif c == "cfgtyped":
+            # typed setters / getters on the decoder's configuration: valid changes only on parameters that are safe to
+            # change on a live decoder; every other parameter only through calls that leave its value unchanged
+            emit("cfg " + typed_config_call(rng, safe_only=True), "cfg-typed")
+        elif c == "logfile":
+            emit("logfile " + rng.choice(["null", "bad", f"log{Cur.i}.txt", f"log{Cur.i}.txt", "logx.txt"]), "logfile")
+        elif c == "reinitfeat":
+            emit("reinitfeat", "reinitfeat")
+        elif c == "subretain":
+            kind = rng.choice(["cfg", "cfg", "lmath", "fe", "feat"])
+            table = sh["cfg"] if kind == "cfg" else sh[kind]
+            fr = [k for k in range(NSLOT) if k not in table]
+            if fr:
+                k = rng.choice(fr)
+                emit(f"subretain {kind} {k}", "subretain-" + kind)
+                if kind == "cfg":
+                    sh["cfg"][k] = t.cfg          # the same object as the decoder's configuration (aliased dict)
+                else:
+                    table.add(k)
+        elif c == "cfgnew":
+            fr = [k for k in range(NSLOT) if k not in sh["cfg"]]
+            if fr:
+                k = rng.choice(fr)
+                g = rng.choice(["jsgf", "fsg", "none", "nojsgf"])
+                emit(f"cfgnew {k} " + init_args(g), "cfgnew")
+                sh["cfg"][k] = {"jsgf": "good" if g == "jsgf" else ("bad" if g == "nojsgf" else "none"),
+                                "fsg": "good" if g == "fsg" else "none"}
+        elif c in ("subuse", "subfree", "cfgk", "cfgwild", "cfgretain", "reinitcfg"):
+            pool = [("cfg", k) for k in sh["cfg"]] + [(kd, k) for kd in ("lmath", "fe", "feat") for k in sh[kd]]
+            if c in ("cfgk", "cfgwild", "cfgretain", "reinitcfg"):
+                pool = [x for x in pool if x[0] == "cfg"]
+            if pool:
+                kind, k = rng.choice(pool)
+                if c == "subuse":
+                    emit(f"subuse {kind} {k}", "subuse-" + kind)
+                elif c == "subfree":
+                    emit(f"subfree {kind} {k}", "subfree-" + kind)
+                    if kind == "cfg":
+                        del sh["cfg"][k]
+                    else:
+                        sh[kind].discard(k)
+                elif c == "cfgretain":
+                    fr = [j for j in range(NSLOT) if j not in sh["cfg"]]
+                    if fr:
+                        j = rng.choice(fr)
+                        emit(f"cfgretain {k} {j}", "cfgretain")
+                        sh["cfg"][j] = sh["cfg"][k]
+                elif c == "cfgk":
+                    emit(f"cfgk {k} " + typed_config_call(rng, safe_only=True), "cfgk")
+                elif c == "cfgwild":
+                    # arbitrary typed sets, only on a configuration no decoder uses or will use
+                    obj = sh["cfg"][k]
+                    if not any(tr.alive and tr.cfg is obj for tr in tracks):
+                        emit(f"cfgk {k} " + typed_config_call(rng, safe_only=False), "cfg-wild")
+                        obj["wild"] = True
+                elif c == "reinitcfg" and t.alive and t.utt != "s":
+                    obj = sh["cfg"][k]
+                    if not obj.get("wild"):
+                        emit(f"reinitcfg {k}", "reinitcfg")
+                        if obj is not t.cfg:
+                            del sh["cfg"][k]
+                        t.cfg = obj
+                        t.search = t.eff_gram() == "good"
+                        t.utt = "i"
+                        t.invalidate("result"); t.invalidate("align")
+        elif c in ("mllrread", "mllrapply", "mllrfree"):
+            if c == "mllrread":
+                fr = [k for k in range(NSLOT) if k not in sh["ml"]]
+                if fr:
+                    k = rng.choice(fr)
+                    kind = rng.choice(["id", "id", "id", "missing", "short", "bad"])
+                    emit(f"mllrread {k} {kind}", "mllrread")
+                    if kind == "id":
+                        sh["ml"][k] = True
+            elif c == "mllrapply":
+                if t.alive and t.utt != "s":
+                    pool = sorted(sh["ml"])
+                    if pool and rng.chance(0.8):
+                        k = rng.choice(pool)
+                        if rng.chance(0.4):
+                            emit(f"mllrapply {k} keep", "mllrapply")
+                        else:
+                            emit(f"mllrapply {k}", "mllrapply")
+                            del sh["ml"][k]
+                    else:
+                        emit("mllrapply null", "mllrapply-null")
+            elif sh["ml"]:
+                k = rng.choice(sorted(sh["ml"]))
+                emit(f"mllrfree {k}", "mllrfree")
+                del sh["ml"][k]
         elif c == "alfree":
             k = rng.choice(sorted(t.aln))
             emit(f"alfree {k}", "alfree")
@@ -473,11 +766,19 @@ def gen_history(rng, stats, maxcalls=40, profile=None):
     # closing: a random part of what is still held is released explicitly and in random order, the rest is
     # released by the harness at end of input (in slot order, decoder last)
     if rng.chance(0.5):
-        rest = [f"segfree {k}" for k in t.seg] + [f"hypfree {k}" for k in t.hyp] + [f"alifree {k}" for k in t.ali] + \
-               [f"latfree {k}" for k in t.lat] + [f"alfree {k}" for k in t.aln] + ["free"] * (t.refs if t.alive else 0)
+        rest = []
+        for i, tr in enumerate(tracks):
+            pre = "@1 " if i == 1 else ""
+            rest += [pre + f"segfree {k}" for k in tr.seg] + [pre + f"hypfree {k}" for k in tr.hyp] + \
+                    [pre + f"alifree {k}" for k in tr.ali] + [pre + f"latfree {k}" for k in tr.lat] + \
+                    [pre + f"alfree {k}" for k in tr.aln] + [pre + f"lnodefree {k}" for k in tr.ln] + \
+                    [pre + f"llinkfree {k}" for k in tr.ll] + [pre + "free"] * (tr.refs if tr.alive else 0)
+        rest += [f"subfree cfg {k}" for k in sh["cfg"]] + [f"subfree {kd} {k}" for kd in ("lmath", "fe", "feat") for k in sh[kd]] + \
+                [f"mllrfree {k}" for k in sh["ml"]]
         rng.shuffle(rest)
         for r in rest[:rng.range(0, len(rest))]:
-            emit(r, "closing")
+            ops.append(r)
+            stats["calls"]["closing"] = stats["calls"].get("closing", 0) + 1
     return ops
 
 
@@ -504,7 +805,7 @@ def parse_transcript(out):
 
 def run_history(binp, ops, timeout=120):
     rc, out, err = vlib.run_bin(binp, stdin_text="\n".join(ops) + "\n", timeout=timeout, leaks=True,
-                                env_extra={"SS_REPO": str(vlib.REPO)})
+                                env_extra={"SS_REPO": str(vlib.REPO), "SS_SCRATCH": SCRATCH_DIR or "/tmp"})
     return rc, parse_transcript(out), err
 
 
@@ -651,6 +952,7 @@ def canon_ret(ret):
 
 
 DRIVER = None
+SCRATCH_DIR = None      # where the harness may write (log files, MLLR files): the check's scratch directory
 
 
 def pin_driver(dirpath):
@@ -668,6 +970,31 @@ def pin_driver(dirpath):
             import time
             time.sleep(0.2)
     raise RuntimeError("ssdriver binary not found")
+
+
+def prepare_scratch(dirpath):
+    """directory the harness may write to (log files); MLLR transform files for mllr_read: an identity transform
+    with the stream layout of the acoustic model (read from the header of its means file), a truncated one and text
+    that is not a transform"""
+    global SCRATCH_DIR
+    import struct
+    SCRATCH_DIR = str(dirpath)
+    os.makedirs(SCRATCH_DIR, exist_ok=True)
+    b = (vlib.REPO / "model" / "en-us" / "means").read_bytes()
+    i = b.index(b"endhdr\n") + 7
+    n_mgau, n_feat, n_density = struct.unpack("<3i", b[i + 4:i + 16])
+    veclen = struct.unpack(f"<{n_feat}i", b[i + 16:i + 16 + 4 * n_feat])
+    out = [f"1\n{n_feat}"]
+    for v in veclen:
+        out.append(str(v))
+        for r in range(v):
+            out.append(" ".join("1.0" if r == c else "0.0" for c in range(v)))
+        out.append(" ".join("0.0" for _ in range(v)))
+        out.append(" ".join("1.0" for _ in range(v)))
+    text = "\n".join(out) + "\n"
+    open(os.path.join(SCRATCH_DIR, "mllr-id.txt"), "w").write(text)
+    open(os.path.join(SCRATCH_DIR, "mllr-short.txt"), "w").write(text[:len(text) // 3])
+    open(os.path.join(SCRATCH_DIR, "mllr-bad.txt"), "w").write("this is not an MLLR transform\n")
 
 
 def pin_harness(dirpath):
@@ -736,6 +1063,9 @@ def compare(tr):
             break
         if ret is None:
             break
+        if " || " not in mst:
+            # model of a single decoder (older driver): compare instance 0 only
+            st = re.sub(r" ln=\d+,\d+", "", st.split(" || ")[0])
         if canon_ret(ret) != mret or st != mst:
             div.append(("return class / state differs", i, call, ret, st, m, mret, mst, cls))
             break
@@ -852,6 +1182,7 @@ def check(c):
         return
     binp = pin_harness(c.scratch)
     pin_driver(c.scratch)
+    prepare_scratch(c.scratch)
     stats = new_stats()
     ok = True
     ncorp = 0
@@ -935,6 +1266,7 @@ def replay(c, path):
     c.lean_obligations()
     binp = pin_harness(c.scratch)
     pin_driver(c.scratch)
+    prepare_scratch(c.scratch)
     obj = json.loads(open(path).read())
     stats = new_stats()
     judge(c, binp, obj["ops"], "replay", stats, shrink=False)
